@@ -181,8 +181,18 @@ func (r *kvRun) compact(name string) {
 	} else {
 		return
 	}
-	kv.VerifWaitFamily(f)
-	r.rec.Emit("WriterDone", trace.F{"fam": int(f.ID()), "nums": r.w.TakeAllocs("")})
+	// the store-level check may start a job in EVERY family that needs one: wait for all of them
+	fams := []kv.Family{}
+	for _, n := range r.store.ListFamilyNames() {
+		if g := r.store.GetFamily(n); g != nil {
+			kv.VerifWaitFamily(g)
+			fams = append(fams, g)
+		}
+	}
+	nums := r.w.TakeAllocs("")
+	for _, g := range fams {
+		r.rec.Emit("WriterDone", trace.F{"fam": int(g.ID()), "nums": nums})
+	}
 	r.rec.Emit("Proj", trace.F{"proj": kvProj(r.store, r.w)})
 }
 
